@@ -1,8 +1,8 @@
 import VncModel.Ws.LemmasStep
-import VncModel.Ws.LemmasStrict
+import VncModel.Ws.LemmasStrictRun
 import VncModel.Ws.LemmasEncoder
 import VncModel.Ws.LemmasB64Law
-import VncModel.Ws.Handshake
+import VncModel.Ws.LemmasHandshakeWF
 import VncModel.Leaf.EquivWs
 /-!
 # C09 — WebSocket transport is transparent and strict
@@ -47,10 +47,11 @@ every call's result, every read request and the whole decoder state are compared
 compared with the C routines on every run); its round-trip law `pton (ntop z) = z` is proved
 (`base64_roundtrip`), so the text-mode statements carry no assumption.
 
-**Partial / not covered.**  The stream-level strictness statement "after the valid prefix the bad
-frame yields an error" is given per call (`strict_*`, each quantified over every decoder state and
-oracle), not as one run theorem.  The handshake theorem covers the response construction, the
-byte-wise header scanner is tied by the differential run only.  TLS (`wss`) and timing (a lone
+**Run-level strictness.**  `strict_run`: valid frames, then a violation, then anything: exactly the
+payloads before the violation are delivered, then the prescribed error.
+
+**Partial / not covered.**  The handshake theorems cover the byte-wise scanner (bounds for all inputs, exact outcome for
+well-formed requests, shape of every acceptance).  TLS (`wss`) and timing (a lone
 control frame followed by silence, see docs/C09.md) are outside the model.
 -/
 namespace VncModel.Props.C09
@@ -81,24 +82,26 @@ example : pton (ntop [1, 2, 3, 4]) 10 = some [1, 2, 3, 4] := by decide
 
 /-! ## transparency under all schedules -/
 
-/-- **decoder_transparent.**  See the header comment. -/
+/-- **decoder_transparent.**  See the header comment.  (`Inv [] cE lv c pending rest`: the decoder
+state `c` with `pending` bytes in the transport still owes exactly `rest`.) -/
 theorem decoder_transparent (fs : List Frame) (hv : ValidSeq opInvalid fs)
     (e : Env) (hp : e.pending = wireOf fs) (hff : e.FaultFree) (hs : e.Safe)
     (lens : List Nat) (hl : ∀ l ∈ lens, 0 < l) :
     (∀ o ∈ (run Ctx.init e lens).outs, o.fine = true) ∧
-    (∃ rest, expected opInvalid fs = delivered (run Ctx.init e lens).outs ++ rest ∧
-       Inv (run Ctx.init e lens).c (run Ctx.init e lens).e.pending rest) ∧
+    (∃ rest lv, expected opInvalid fs = delivered (run Ctx.init e lens).outs ++ rest ∧
+       Inv [] (endCo opInvalid fs) lv (run Ctx.init e lens).c (run Ctx.init e lens).e.pending rest) ∧
     (run Ctx.init e lens).e.Safe := by
-  obtain ⟨h1, V', h2, h3, _, h5⟩ :=
-    run_inv b64Law lens hl Ctx.init e (expected opInvalid fs) (hp ▸ Inv_init fs hv) hff hs
-  exact ⟨h1, ⟨V', h2, h3⟩, h5⟩
+  obtain ⟨lv0, h0⟩ := Inv_init fs hv
+  obtain ⟨h1, V', lv', h2, h3, _, h5⟩ :=
+    run_inv b64Law (endCo opInvalid fs) lens hl lv0 Ctx.init e (expected opInvalid fs) (hp ▸ h0) hff hs
+  exact ⟨h1, ⟨V', lv', h2, h3⟩, h5⟩
 
 /-- the delivered bytes are always a prefix of the payload stream -/
 theorem decoder_delivers_prefix (fs : List Frame) (hv : ValidSeq opInvalid fs)
     (e : Env) (hp : e.pending = wireOf fs) (hff : e.FaultFree) (hs : e.Safe)
     (lens : List Nat) (hl : ∀ l ∈ lens, 0 < l) :
     delivered (run Ctx.init e lens).outs <+: expected opInvalid fs := by
-  obtain ⟨_, ⟨rest, h, _⟩, _⟩ := decoder_transparent fs hv e hp hff hs lens hl
+  obtain ⟨_, ⟨rest, _, h, _⟩, _⟩ := decoder_transparent fs hv e hp hff hs lens hl
   exact ⟨rest, h.symm⟩
 
 /-- **decoder_complete.**  All input consumed and nothing buffered ⇒ the caller got everything. -/
@@ -107,30 +110,32 @@ theorem decoder_complete (fs : List Frame) (hv : ValidSeq opInvalid fs)
     (lens : List Nat) (hl : ∀ l ∈ lens, 0 < l)
     (hdone : (run Ctx.init e lens).e.pending = []) (hbuf : (run Ctx.init e lens).c.readlen = 0) :
     delivered (run Ctx.init e lens).outs = expected opInvalid fs := by
-  obtain ⟨_, ⟨rest, h, hinv⟩, _⟩ := decoder_transparent fs hv e hp hff hs lens hl
-  rw [hdone] at hinv
-  rw [h, Inv_finished _ _ hinv hbuf, List.append_nil]
+  obtain ⟨_, ⟨rest, lv, h, hinv⟩, _⟩ := decoder_transparent fs hv e hp hff hs lens hl
+  rw [h, Inv_finished _ lv _ _ _ hinv hdone.symm hbuf, List.append_nil]
 
-/-- one call, from any state the invariant describes: either bytes (at most `len`, the next ones
-owed) or EAGAIN; never an error, never an out-of-buffer read; plus the progress clause -/
-theorem decoder_step (c : Ctx) (e : Env) (V : List Byte) (len : Nat)
-    (hinv : Inv c e.pending V) (hff : e.FaultFree) (hs : e.Safe) (hlen : 0 < len) :
+/-- one call, from any state the invariant describes (inside valid frames that may be followed by
+arbitrary bytes `T`): either bytes (at most `len`, the next ones owed) or EAGAIN; never an error,
+never an out-of-buffer read; plus the progress clause -/
+theorem decoder_step (T : List Byte) (cE : Byte) (lv : Bool) (c : Ctx) (e : Env) (V : List Byte) (len : Nat)
+    (hinv : Inv T cE lv c e.pending V) (hT : lv = true ∨ T = []) (hff : e.FaultFree) (hs : e.Safe)
+    (hlen : 0 < len) :
     ∃ out V', (decode c e len).2.2 = (if out = [] then Res.again else Res.data out) ∧
       out.length ≤ len ∧ V = out ++ V' ∧
-      Inv (decode c e len).1 (decode c e len).2.1.pending V' ∧
+      (∃ lv', Inv T cE lv' (decode c e len).1 (decode c e len).2.1.pending V') ∧
       (decode c e len).2.1.FaultFree ∧ (decode c e len).2.1.Safe ∧
       (out ≠ [] ∨ (decode c e len).2.1.pending.length < e.pending.length ∨ e.Stuck) :=
-  decode_step b64Law c e V len hinv hff hs hlen
+  decode_step b64Law T cE lv c e V len hinv hT hff hs hlen
 
 /-- **no stall.**  A call returns bytes, or consumes at least one pending byte, unless the transport
 itself has nothing to give (its next answer is EAGAIN or nothing is pending).  Since the pending
 input and the owed output are finite, every schedule that answers EAGAIN only finitely often
 drives the run to the end, where `decoder_complete` applies. -/
-theorem decoder_progress (c : Ctx) (e : Env) (V : List Byte) (len : Nat)
-    (hinv : Inv c e.pending V) (hff : e.FaultFree) (hs : e.Safe) (hlen : 0 < len) :
+theorem decoder_progress (T : List Byte) (cE : Byte) (lv : Bool) (c : Ctx) (e : Env) (V : List Byte) (len : Nat)
+    (hinv : Inv T cE lv c e.pending V) (hT : lv = true ∨ T = []) (hff : e.FaultFree) (hs : e.Safe)
+    (hlen : 0 < len) :
     (∃ bs, bs ≠ [] ∧ (decode c e len).2.2 = .data bs) ∨
     (decode c e len).2.1.pending.length < e.pending.length ∨ e.Stuck := by
-  obtain ⟨out, _, h1, _, _, _, _, _, h⟩ := decode_step b64Law c e V len hinv hff hs hlen
+  obtain ⟨out, _, h1, _, _, _, _, _, h⟩ := decode_step b64Law T cE lv c e V len hinv hT hff hs hlen
   rcases h with h | h | h
   · exact Or.inl ⟨out, h, by rw [h1]; simp [h]⟩
   · exact Or.inr (Or.inl h)
@@ -269,6 +274,60 @@ example : ∃ (e e1 : Env) (bs : List Byte), e.read Ctx.init.nRead (hdrMissing C
     Ctx.init.hdr ++ bs = 0x81 :: 0x05 :: [0x48, 0x65, 0x6c, 0x6c] ∧ (0x05 : Byte) &&& 0x80 = 0 :=
   ⟨{ pending := [0x81, 0x05, 0x48, 0x65, 0x6c, 0x6c, 0x6f], sched := [] }, _, _, rfl, by decide, by decide⟩
 
+/-! ## strictness of whole runs -/
+
+/-- **strict_run.**  A stream that consists of valid frames `fs` followed by a protocol violation
+(`BadTail`: reserved opcode, fragmented control frame, continuation without start, control frame
+longer than 125 bytes, unmasked frame, non-minimal length encoding — errno EPROTO; or a Close
+frame — errno ECONNRESET) and then arbitrary bytes; every fault-free oracle, every list of positive
+caller lengths; the caller stops at the first result that is neither data nor EAGAIN (`runStop`, as
+`rfbReadExactTimeout` does).  Then: every result is data, EAGAIN or exactly the prescribed error;
+the bytes delivered are a prefix of the payload stream of the frames BEFORE the violation; and when
+the error is reported, exactly that payload stream has been delivered — no byte of the violating
+frame or of anything behind it ever reaches the caller. -/
+theorem strict_run (fs : List Frame) (hv : ValidSeq opInvalid fs) (T : List Byte) (E : Errno)
+    (hbt : BadTail (endCo opInvalid fs) T E) (e : Env) (hp : e.pending = wireOf fs ++ T)
+    (hff : e.FaultFree) (hs : e.Safe) (lens : List Nat) (hl : ∀ l ∈ lens, 0 < l) :
+    (∀ r ∈ runStop Ctx.init e lens, r.fine = true ∨ r = .err E) ∧
+    delivered (runStop Ctx.init e lens) <+: expected opInvalid fs ∧
+    (∀ r ∈ runStop Ctx.init e lens, r.fine = false →
+      delivered (runStop Ctx.init e lens) = expected opInvalid fs) := by
+  obtain ⟨lv, h0⟩ := Inv_start T (endCo opInvalid fs) opInvalid fs hv rfl opInvalid 0 0
+  have hsi : SI T (endCo opInvalid fs) E Ctx.init e.pending (expected opInvalid fs) := by
+    rw [hp]; exact SI_of_inv T _ E hbt lv _ _ _ h0
+  obtain ⟨h1, V', h2, h3⟩ := strict_run_aux b64Law T _ E hbt lens hl Ctx.init e _ hsi hff hs
+  refine ⟨h1, ⟨V', h2.symm⟩, ?_⟩
+  intro r hr hnf
+  rw [h2, h3 r hr hnf, List.append_nil]
+
+/-- one call inside the violating frame, from every state `Bad` describes: the prescribed error, or
+EAGAIN with the decoder still inside that frame -/
+theorem strict_step (co : Byte) (E : Errno) (c : Ctx) (e : Env) (len : Nat) (hbad : Bad co E c e.pending)
+    (hff : e.FaultFree) (hs : e.Safe) :
+    (decode c e len).2.1.FaultFree ∧ (decode c e len).2.1.Safe ∧
+    ((decode c e len).2.2 = .err E ∨
+     ((decode c e len).2.2 = .again ∧ Bad co E (decode c e len).1 (decode c e len).2.1.pending)) :=
+  bad_step co E c e len hbad hff hs
+
+-- non-vacuity: after the example frames (message closed, nothing open): a reserved opcode, an
+-- unmasked frame, an oversized ping, a continuation without start, a 16-bit length of 5, a Close
+example : endCo opInvalid exFrames = opInvalid := by decide
+example : BadTail opInvalid (0x83 :: 0x80 :: [1, 2, 3]) .eproto := .two _ _ _ (Or.inl (by decide))
+example : BadTail opInvalid (0x82 :: 0x05 :: [1, 2, 3, 4, 5]) .eproto :=
+  .two _ _ _ (Or.inr (Or.inr (Or.inr (Or.inr (by decide)))))
+example : BadTail opInvalid (0x89 :: 0xfe :: [0x0b, 0xb8]) .eproto :=
+  .two _ _ _ (Or.inr (Or.inr (Or.inr (Or.inl ⟨by decide, by decide⟩))))
+example : BadTail opInvalid (0x80 :: 0x81 :: [0, 0, 0, 0, 7]) .eproto :=
+  .two _ _ _ (Or.inr (Or.inr (Or.inl ⟨by decide, by decide, rfl⟩)))
+example : BadTail opInvalid (nm16 0x82 0 5 1 2 3 4 ++ [9, 9, 9, 9, 9]) .eproto :=
+  .nonmin 0x82 _ _ ⟨by decide, by decide, fun h => absurd h (by decide)⟩
+    (Or.inl ⟨0, 5, 1, 2, 3, 4, rfl, by decide⟩)
+example : BadTail opInvalid
+    ((⟨0x88, ⟨1, 2, 3, 4⟩, [3, 232]⟩ : Frame).header ++
+      (xorMask ⟨1, 2, 3, 4⟩ [3, 232] ++ [0x82, 0x81])) .econnreset :=
+  .close ⟨0x88, ⟨1, 2, 3, 4⟩, [3, 232]⟩ _
+    ⟨by decide, fun _ => ⟨by decide, Or.inl (by decide), by decide⟩, fun h => absurd h (by decide)⟩ (by decide)
+
 /-! ## what the server sends -/
 
 /-- **header_roundtrip.**  The header `webSocketsEncodeHybi` writes for opcode text/binary and payload
@@ -363,56 +422,128 @@ theorem ws_split_counterexample_unfixed :
     by simp [Env.FaultFree, cexEnv, Resp.benign], by simp [cexEnv, wireOf],
     by decide, by decide, by decide, by decide, by decide⟩
 
-/-! ## handshake -/
+/-! ## handshake
 
-/-- shape of every successful handshake of the model: the 101 response is the code's template
-filled with `base64 (sha1 (key ++ GUID))` for the key of the request and with the chosen
-sub-protocol; base64 is chosen iff the offered protocols mention it, else binary iff they mention
-it, else no protocol line -/
-theorem handshake_accept_key (sha1 : List Byte → List Byte) (req resp path unread : List Byte) (b64 : Bool)
-    (h : handshake sha1 req = .ok resp b64 path unread) :
-    ∃ key : List Byte, ∃ proto : Option (List Byte),
-      (scanRequest req [] 0 {}).1.key = some key ∧ (scanRequest req [] 0 {}).1.protocol = proto ∧
-      b64 = (match proto with | some p => hasInfix bBase64 p | none => false) ∧
-      (resp = fmt2 C09.handshakeFmt (ntop (sha1 (key ++ strBytes C09.guid))) bBase64 ∨
-       resp = fmt2 C09.handshakeFmt (ntop (sha1 (key ++ strBytes C09.guid))) bBinary ∨
-       resp = fmt2 C09.handshakeFmtNoProto (ntop (sha1 (key ++ strBytes C09.guid))) []) := by
-  unfold handshake at h
-  split at h
-  · cases h
-  · generalize scanRequest req [] 0 {} = sr at h ⊢
-    obtain ⟨s, un⟩ := sr
-    simp only at h ⊢
-    split at h
-    · cases h
-    · cases hkey : s.key with
-      | none => simp [hkey] at h
-      | some key =>
-        cases hpath : s.path with
-        | none => simp [hkey, hpath] at h
-        | some p =>
-          cases hhost : s.host with
-          | none => simp [hkey, hpath, hhost] at h
-          | some hst =>
-            simp only [hkey, hpath, hhost] at h
-            split at h
-            · cases h
-            · simp only [HsResult.ok.injEq] at h
-              obtain ⟨h1, h2, _, _⟩ := h
-              refine ⟨key, s.protocol, rfl, rfl, h2.symm, ?_⟩
-              rw [← h1]
-              simp only [acceptKey]
-              cases hpr : s.protocol with
-              | none => right; right; simp
-              | some pr =>
-                have l1 : bBase64.length > 0 := by decide
-                have l2 : bBinary.length > 0 := by decide
-                simp only
-                by_cases hb : hasInfix bBase64 pr = true
-                · left; simp only [hb, if_true, l1]
-                · by_cases hbin : hasInfix bBinary pr = true
-                  · right; left; simp only [hb, hbin, if_true, l2]; simp; intro h; exact absurd h (by decide)
-                  · right; right; simp [hb, hbin]
+Model: `VncModel/Ws/Handshake.lean` — the 4096-byte request buffer with the NUL patches of the code,
+header values as offsets into it, every written index recorded (`Scan.writes`); the request is
+consumed byte by byte until the empty line, 4095 bytes or the end of what the client sent
+(time-out: go on with what is there; closed: fail).  The code modelled is websockets.c with
+fixes/C09-handshake-unterminated-value.diff (the buffer is kept NUL-terminated). -/
+
+/-- **buffer bounds**: for EVERY byte sequence (and however it is segmented: the scanner reads one
+byte at a time) every index of the 4096-byte request buffer that is written — the received bytes,
+the running terminator, the `buf[len-2]` / `buf[len-11]` patches, the 8 Hixie bytes — is below
+4096, and the length never exceeds 4095 -/
+theorem handshake_buffer_in_bounds (req : List Byte) :
+    (scanLoop req {}).1.len < C09.maxHandshakeLen ∧
+    ∀ i ∈ (scanLoop req {}).1.writes, i < C09.maxHandshakeLen :=
+  scanLoop_bounds req {} (by simp [Scan.len, HSMAX, C09.maxHandshakeLen]) (by intro i hi; cases hi)
+
+/-- **accept key and sub-protocol of every accepted request**: whatever the request bytes, if the
+handshake succeeds then the request began with "GET ", carried a non-zero version, a key, a path,
+a host and an origin, the 101 response is the code's template filled with
+`base64 (sha1 (key ++ GUID))` for exactly the key string the scanner points at, and the sub-protocol
+answered is none, or "base64"/"binary" occurring in the client's Sec-WebSocket-Protocol value
+(base64 framing iff "base64" is answered) -/
+theorem handshake_accept_key (sha1 : List Byte → List Byte) (req : List Byte) (ending : HsEnd)
+    (resp path unread : List Byte) (b64 : Bool) (h : handshake sha1 req ending = .ok resp b64 path unread) :
+    pGet.isPrefixOf req = true ∧ (scanLoop req {}).1.version = true ∧
+    ∃ k, (scanLoop req {}).1.ptr .key = some k ∧
+      ∃ proto : List Byte,
+        resp = (if proto.length > 0 then
+                  fmt2 C09.handshakeFmt (ntop (sha1 ((scanLoop req {}).1.strAt k ++ strBytes C09.guid))) proto
+                else fmt2 C09.handshakeFmtNoProto (ntop (sha1 ((scanLoop req {}).1.strAt k ++ strBytes C09.guid))) []) ∧
+        ((proto = [] ∧ b64 = false) ∨
+         (∃ p a b, (scanLoop req {}).1.ptr .protocol = some p ∧ (scanLoop req {}).1.strAt p = a ++ proto ++ b ∧
+            ((proto = bBase64 ∧ b64 = true) ∨ (proto = bBinary ∧ b64 = false)))) := by
+  obtain ⟨h1, h2, _, _, _, k, hk, hb, hr⟩ := handshake_ok_shape sha1 req ending resp path unread b64 h
+  refine ⟨h1, h2, k, hk, _, hr, ?_⟩
+  generalize hO : ((scanLoop req {}).1.ptr .protocol).map (scanLoop req {}).1.strAt = O at hb hr ⊢
+  rcases chooseProtocol_spec O with ⟨c1, c2⟩ | ⟨p, a, b, c1, c2, c3⟩
+  · left; exact ⟨c1, by rw [hb, c2]⟩
+  · right
+    cases hp : (scanLoop req {}).1.ptr .protocol with
+    | none => rw [hp, c1] at hO; simp at hO
+    | some po =>
+      rw [hp, c1] at hO
+      simp only [Option.map_some, Option.some.injEq] at hO
+      refine ⟨po, a, b, rfl, by rw [hO]; exact c2, ?_⟩
+      rw [hb]; exact c3
+
+/-- **refusal**: a request that does not begin with "GET ", or in which the scanner finds no
+(non-zero) version or no key line, is refused -/
+theorem handshake_refuses (sha1 : List Byte → List Byte) (req : List Byte) (ending : HsEnd)
+    (h : pGet.isPrefixOf req = false ∨ (scanLoop req {}).1.version = false ∨
+         (scanLoop req {}).1.ptr .key = none) :
+    handshake sha1 req ending = .fail := by
+  cases hres : handshake sha1 req ending with
+  | fail => rfl
+  | ok resp b64 path unread =>
+    obtain ⟨h1, h2, _, _, _, k, hk, _⟩ := handshake_ok_shape sha1 req ending resp path unread b64 hres
+    rcases h with h | h | h
+    · rw [h] at h1; cases h1
+    · rw [h] at h2; cases h2
+    · rw [h] at hk; cases hk
+
+/-- **well-formed requests are read exactly as written**: header lines without LF and NUL, each
+terminated by CR LF, the empty line at the end, at most 4095 bytes in total, not a Hixie request:
+the outcome of the byte-wise scanner is `specResult` of the value-level reading `specLine` of the
+lines, in any order, with duplicates (the last one wins), with any letter case of the header names;
+bytes after the request are left for the frame decoder -/
+theorem handshake_wellformed_request (sha1 : List Byte → List Byte) (lines : List (List Byte))
+    (rest : List Byte) (ending : HsEnd) (hwf : ∀ l ∈ lines, WFLine l)
+    (hlen : (wfRequest lines).length ≤ C09.maxHandshakeLen - 1)
+    (hget : pGet.isPrefixOf (wfRequest lines ++ rest) = true)
+    (hk : ¬ ((lines.foldl specLine {}).key1 = true ∧ (lines.foldl specLine {}).key2 = true)) :
+    handshake sha1 (wfRequest lines ++ rest) ending = specResult sha1 (lines.foldl specLine {}) rest :=
+  handshake_wellformed sha1 lines rest ending hwf hlen hget hk
+
+/-- what a header line contributes, for the header names in any letter case: its value, verbatim -/
+theorem handshake_header_values (F : ReqSpec) (n v : List Byte) :
+    (n.map lowerB = pKey → specLine F (n ++ v) = F.set .key v) ∧
+    (n.map lowerB = pHost → specLine F (n ++ v) = F.set .host v) ∧
+    (n.map lowerB = pOrigin → specLine F (n ++ v) = F.set .origin v) ∧
+    (n.map lowerB = pProtocol → specLine F (n ++ v) = F.set .protocol v) ∧
+    (n.map lowerB = pSecOrigin → specLine F (n ++ v) = F.set .secOrigin v) :=
+  specLine_of_name F n v
+
+/-- **valid request ⇒ RFC answer**: if the value-level reading has a non-zero version, key `k`, a
+path, a host and an origin, the answer is 101 with `base64 (sha1 (k ++ GUID))` and the sub-protocol
+chosen from the offered value; without key or version the request is refused -/
+theorem handshake_valid_request (sha1 : List Byte → List Byte) (F : ReqSpec) (unread k : List Byte)
+    (hv : F.version = true) (hk : F.val .key = some k) (hp : (F.val .path).isSome)
+    (hh : (F.val .host).isSome) (ho : (F.val .origin).isSome ∨ (F.val .secOrigin).isSome) :
+    ∃ resp, specResult sha1 F unread =
+        .ok resp (chooseProtocol (F.val .protocol)).1 ((F.val .path).getD []) unread ∧
+      resp = (if (chooseProtocol (F.val .protocol)).2.length > 0 then
+                fmt2 C09.handshakeFmt (ntop (sha1 (k ++ strBytes C09.guid))) (chooseProtocol (F.val .protocol)).2
+              else fmt2 C09.handshakeFmtNoProto (ntop (sha1 (k ++ strBytes C09.guid))) []) := by
+  refine ⟨_, ?_, rfl⟩
+  unfold specResult
+  simp only [hv, Bool.not_true, Bool.false_eq_true, if_false, hk, acceptKey]
+  have c : ¬ ((F.val .path).isNone = true ∨ (F.val .host).isNone = true ∨
+      ((F.val .origin).isNone = true ∧ (F.val .secOrigin).isNone = true)) := by
+    cases h1 : F.val .path <;> cases h2 : F.val .host <;> cases h3 : F.val .origin <;>
+      cases h4 : F.val .secOrigin <;> simp_all
+  simp only [c, if_false]
+
+theorem handshake_missing_key_or_version (sha1 : List Byte → List Byte) (F : ReqSpec) (unread : List Byte)
+    (h : F.version = false ∨ F.val .key = none) : specResult sha1 F unread = .fail := by
+  unfold specResult
+  rcases h with h | h
+  · simp [h]
+  · cases hv : F.version <;> simp [h]
+
+-- non-vacuity: a small request, header names in mixed case, in "wrong" order
+private def exLines : List (List Byte) :=
+  [strBytes "GET /vnc HTTP/1.1", strBytes "sec-websocket-KEY: dGhlIHNhbXBsZSBub25jZQ==",
+   strBytes "Host: h", strBytes "Sec-WebSocket-Version: 13", strBytes "Origin: o",
+   strBytes "Sec-WebSocket-Protocol: binary, base64"]
+example : (exLines.foldl specLine {}).val .key = some (strBytes "dGhlIHNhbXBsZSBub25jZQ==") ∧
+    (exLines.foldl specLine {}).version = true ∧
+    (chooseProtocol ((exLines.foldl specLine {}).val .protocol)) = (true, bBase64) ∧
+    (exLines.foldl specLine {}).val .path = some (strBytes "/vnc") := by decide
+example : ∀ l ∈ exLines, WFLine l := by unfold WFLine; decide
 
 end VncModel.Props.C09
 
